@@ -519,6 +519,14 @@ class IPAddr6 (_AddrBase):
           raise RuntimeError('IPv4-compatible representation unimplemented')
         if ':' in ip4part:
           raise RuntimeError('Bad address format')
+        # The dotted part is four plain decimal octets.  (It is converted by
+        # IPAddr below, which - like inet_aton() - also takes short forms,
+        # octal/hex parts and trailing whitespace.)
+        quad = ip4part.split('.')
+        if len(quad) != 4 or any(
+            not (q.isascii() and q.isdigit()) or len(q) > 3
+            or (len(q) > 1 and q[0] == '0') or int(q) > 255 for q in quad):
+          raise RuntimeError('Bad address format')
         addr += ':0:0'
 
       segs = addr.split(':')
